@@ -86,6 +86,19 @@ def check_event(s, ev, out):
                 + lost,
                 f'reply for {u} -> chronicle appends {app}',
             )
+        if ev['outcome'] == 'success' and not lost:
+            from .c02 import propagation_gaps
+
+            for d, t, site in propagation_gaps(s, ev):
+                if site:
+                    continue  # listed under C02 (second feedback consumer)
+                out.fail(
+                    'reply/new-values-not-propagated',
+                    f'{u} reported new {sorted(ev["newset"])}: {d}[{t}] '
+                    f'declares one of them but is not pending afterwards '
+                    f'(todo={sorted(ev["after"][d][0])}, doing='
+                    f'{sorted(ev["after"][d][1])})',
+                )
         if ev['outcome'] == 'success':
             if [c[:2] for c in upd] != [('update', u.jobid)] or pur:
                 out.fail(
@@ -129,5 +142,12 @@ def parts(tier):
             'history', execute,
             strategy=sim.histories(weights={'rereq': 4, 'leave': 1}),
             cases=1600 if q else 50000, batch=200,
+        ),
+        core.Part(
+            'timers', execute,
+            strategy=sim.histories(weights={'rereq': 4, 'leave': 1,
+                                            'timer': 8},
+                                   spec_kw={'events': True}),
+            cases=400 if q else 12500, batch=200,
         ),
     ]
